@@ -63,7 +63,7 @@ m = {
  "engines": [{"name": "harness", "path": "/verif/harness", "serves_properties": [c["property_id"] for c in checks], "kind_free_text": "Go program (parent + child processes) embedding real go-orbit-db instances over a simulated network, with hook handler, reference models, adversary toolkit and per-property monitors"}],
  "checks": checks,
  "not_applicable": na,
- "notes": "Every check: exit 0 held / 1 VIOLATION / 3 INCONCLUSIVE. quick = plain build, thorough = -race build with more cases. Known findings: /verif/KNOWN_FINDINGS.txt. VERIF_SEED selects the PRNG seed (default 1).",
+ "notes": "Every check: exit 0 held / 1 VIOLATION / 3 INCONCLUSIVE. quick = plain build, thorough = -race build with more cases. Known findings: /verif/KNOWN_FINDINGS.txt. VERIF_SEED selects the PRNG seed (default 1). Two fix commits in /repo (09ed9c0, 72363d5) add a code path next to existing hook calls and therefore carry one call to the no-op verifhook package each (Processed, Emitting) so that the pending-work accounting stays balanced; they add no hook of their own.",
 }
 json.dump(m, open('/verif/MANIFEST.json', 'w'), indent=1)
 print("claimed:", [c["property_id"] for c in checks])
